@@ -100,6 +100,39 @@ pub fn execute(duts: &mut Duts, c: &J) -> J {
             let n = c["N"].as_u64().unwrap() as usize;
             J::Array(d.process(n, script_of(c)))
         }
+        "procset" => {
+            // one stream, several delivery schedules (C07); optionally also message by message
+            let n = c["N"].as_u64().unwrap() as usize;
+            let mut vs = Vec::new();
+            for v in c["variants"].as_array().unwrap() {
+                if let Some(p) = v.get("susp") {
+                    rec::set_susp(jusizes(p).into_iter().map(|x| x as u32).collect());
+                }
+                else {
+                    rec::set_susp(vec![]);
+                }
+                d.fresh();
+                let script = Script {
+                    stream: jbytes(&c["stream"]),
+                    chunks: jusizes(&v["chunks"]),
+                    fail_at: None,
+                    pend: v.get("pend").map(|p| jusizes(p).into_iter().map(|x| x as u32).collect()).unwrap_or_default(),
+                };
+                vs.push(J::Array(d.process(n, script)));
+            }
+            let mut o = json!({"v": vs});
+            if let Some(msgs) = c.get("msgs").and_then(|m| m.as_array()) {
+                rec::set_susp(vec![]);
+                d.fresh();
+                let w = WriterSpec::Rec(None);
+                let mut all = Vec::new();
+                for m in msgs {
+                    all.extend(d.run(&jbytes(m), &w));
+                }
+                o["runs"] = J::Array(all);
+            }
+            o
+        }
         "parse" => {
             let start: Vec<String> = c["start"]
                 .as_array()
